@@ -34,11 +34,13 @@ def one(d):
                 break
     if rcv == "0" and meta.get("out_of_reach"):
         rcv = "9"
+    if rcv == "0" and meta.get("neutralised_by"):
+        rcv = "8"
     return d, prop, rcv, cls, out
 rows = []
 with ThreadPoolExecutor(jobs) as ex:
     for d, prop, rc, cls, out in ex.map(one, dirs):
-        verdict = {"1": "DETECTED", "0": "missed", "2": "infra", "9": "missed (out of reach: stubbed component)"}.get(rc, "?")
+        verdict = {"1": "DETECTED", "0": "missed", "2": "infra", "9": "missed (out of reach: stubbed component)", "8": "no longer a breaking change (neutralised by a later fix in /repo; detected before it)"}.get(rc, "?")
         print(d, prop, verdict, cls[:2], flush=True)
         rows.append((d, prop, verdict, "; ".join(cls[:3])))
         open(V + "/seeded/%s/last_check.log" % d, "w").write(out[-6000:])
